@@ -627,10 +627,12 @@ class MetadataManager:
         among same-version files (possible after historical races) prefers the
         most recently modified.
         """
-        try:
-            all_files = self.storage.list_files(self.metadata_path)
-        except Exception:
-            return None
+        # A listing that FAILS is not "no metadata files": swallowing the error made
+        # a commit whose hint probe and listing both failed proceed as if the table
+        # had no version yet (next version 1, no metadata-log entry), and would let
+        # initialize_table() re-initialise an existing table. Let it propagate -
+        # callers fail closed.
+        all_files = self.storage.list_files(self.metadata_path)
 
         best: Optional[Tuple[int, str]] = None
         best_mtime = -1.0
